@@ -74,3 +74,37 @@ func VerifC20_MuxVars() {
 	verifRaceFree("mounted-muxer")
 	verifAssert("vars-of-own-request", v0["x"] == x && v1["y"] == y && p0 == "/a/{x}" && p1 == "/b/{*y}")
 }
+
+// VerifC20_MuxVarsFromMiddleware: Vars called from a muxer middleware, i.e.
+// before the request has been routed (what logging/tracing middlewares do).
+func VerifC20_MuxVarsFromMiddleware() {
+	m := NewMuxer()
+	var mv0, mv1, hv0, hv1 map[string]string
+	m.Use(func(next http.Handler) http.Handler {
+		return http.HandlerFunc(func(w http.ResponseWriter, r *http.Request) {
+			if r.Header.Get("X-Req") == "1" {
+				mv1 = m.Vars(r)
+			} else {
+				mv0 = m.Vars(r)
+			}
+			next.ServeHTTP(w, r)
+		})
+	})
+	m.Handle("GET", "/a/{x}", func(w http.ResponseWriter, r *http.Request) { hv0 = m.Vars(r) })
+	m.Handle("GET", "/b/{*y}", func(w http.ResponseWriter, r *http.Request) { hv1 = m.Vars(r) })
+	x, y := nondetString("x", 1), nondetString("y", 1)
+	u0, err0 := url.ParseRequestURI("/a/" + url.PathEscape(x))
+	u1, err1 := url.ParseRequestURI("/b/" + url.PathEscape(y))
+	verifAssume(err0 == nil && err1 == nil && x != "")
+	verifConcurrently(
+		func() {
+			m.ServeHTTP(&verifRW{h: http.Header{}}, &http.Request{Method: "GET", URL: u0, Header: http.Header{"X-Req": {"0"}}})
+		},
+		func() {
+			m.ServeHTTP(&verifRW{h: http.Header{}}, &http.Request{Method: "GET", URL: u1, Header: http.Header{"X-Req": {"1"}}})
+		},
+	)
+	verifRaceFree("muxer-middleware")
+	verifAssert("middleware-sees-vars-of-own-request", mv0["x"] == x && mv1["y"] == y && len(mv0) == 1 && len(mv1) == 1)
+	verifAssert("handler-sees-vars-of-own-request", hv0["x"] == x && hv1["y"] == y)
+}
